@@ -435,6 +435,10 @@ impl<'a> Gen<'a> {
         if self.rng.chance(1, 3) {
             q.offset = Some(self.rng.below(nrows + 3));
         }
+        // LIMIT / OFFSET over an unordered query is part of the property too
+        if (q.limit.is_some() || q.offset.is_some()) && self.rng.chance(1, 3) {
+            q.order.clear();
+        }
         q
     }
 
